@@ -466,7 +466,7 @@ URIS = [b"http://example.com/p?q#f", b"http://example.com", b"http://example.com
 
 
 UNIX_URIS = [b"http://unix:/run/control.sock:/controller", b"http://unix:/tmp/sock:/path?q#f", b"http://u@unix:/tmp/sock:/p", b"http://unix:sock:/path", b"http://unix:/tmp/sock:", b"http://unix:a:",
-             b"http://unix:/tmp/sock", b"http://unix.example.com/p", b"http://unix:/tmp/sock:?q", b"http://unix:/tmp/sock:#f", b"http://unix:/a/b/c:/d/e", b"http://example.com/p?q#f", b"/p"]
+             b"http://unix:/tmp/sock", b"http://unix.example.com/p", b"http://unix:/tmp/sock:?q", b"http://unix:/tmp/sock:#f", b"http://unix:/a/b/c:/d/e", b"http://example.com/p?q#f", b"/p", b"http://unix:/tmp/sock:index.html", b"http://unix:s:p?q", b"//unix:s:x", b"http://u@unix:s:p/q"]
 
 
 def ref_unix_uri(t):
